@@ -124,6 +124,22 @@ P("C14",
   assumptions=["at least one sink; the clause 'a sink of positive demand' is only required when some sink has positive demand"])
 
 
+P("C19",
+  rc={"quick": (8, 40000, 100, 2), "thorough": (12, 400000, 100, 2)},
+  exh={"quick": 4, "thorough": 4},
+  fuzz={"quick": None, "thorough": (4, 100000, 512)},
+  rule="four generated modes: random 32-bit efforts through ColoquinteParameters and the six sub-parameter "
+       "constructors; parameter sets with 0..3 fields driven just below/above a bound of an independent bounds "
+       "table plus the cross-field rules (reopt sizes/overlaps, initial vs max steps, cost models), each rejected "
+       "set then passed to placeGlobal/legalize/placeDetailed on a small circuit (must throw before any callback, "
+       "circuit unchanged); every vector setter with a wrong length; addNet/setNets with inconsistent lengths or "
+       "out-of-range cells. non-trivial = the input violates a documented range; distinct = hash of the violating "
+       "input. Exhaustive part: efforts -16..32, every field x 4 probes x efforts {1,5,9}, setters x lengths "
+       "{0,n-1,n+1,2n} x n=1..6, net defects x positions x 6 out-of-range values.",
+  assumptions=["probes sit at bound +- 1e-3*max(1,|bound|) (half/double for bounds below 1e-3), never exactly on a real-valued bound",
+               "sub-parameter constructors whose effort argument is unused may accept any effort; they must not invoke UB"])
+
+
 # ----------------------------------------------------------------------------
 def sh(cmd, **kw):
     return subprocess.run(cmd, stdout=subprocess.PIPE, stderr=subprocess.STDOUT, text=True, **kw)
@@ -722,7 +738,8 @@ def run_check(pid, tier, seed, opts):
             continue
         try:
             j = json.load(open(jf))
-        except Exception:
+        except Exception as ex:
+            inconclusive.append("%s: evidence file unreadable (%s)" % (p.name, ex))
             continue
         if p.kind == "exh":
             agg["exh_states"] += j["exhaustive_states"]
